@@ -254,7 +254,7 @@ def run(ctx):
         states = transitions = 1
     else:
         w = 4 if ctx.quick else 8
-        specs = [("main", 260, 7, ctx.seed, 1)] if ctx.quick else \
+        specs = [("main", 220, 7, ctx.seed, 1)] if ctx.quick else \
                 [("main", 1200, 7, ctx.seed, 1), ("deep", 300, 12, ctx.seed + 1000, 1), ("tree", 12, 5, ctx.seed + 2000, 3)]
         cases, states, transitions = [], 0, 0
         for tag, nh, ln, sd, br in specs:
